@@ -1,0 +1,13 @@
+//go:build verif
+
+package chain
+
+import "github.com/zenon-network/go-zenon/chain/nom"
+
+// Exports for the verification harness (/verif): the pool's priority rule and the momentum content filter.
+
+func VerifHigherPriority(a, b *nom.AccountBlock) error { return higherPriority(a, b) }
+
+func VerifFilterBlocksToCommit(blocks []*nom.AccountBlock) []*nom.AccountBlock {
+	return (&accountPool{}).filterBlocksToCommit(blocks)
+}
